@@ -35,6 +35,12 @@ func (e *Exec) ghostAppend(st *BState, name string, elem types.Type, v SV) {
 			st.ghost["$outAtMeta"] = intSV(o.(*SliceV).Len)
 			ghostTypes["$outAtMeta"] = types.Typ[types.Int]
 		}
+		for k, v := range st.ghost {
+			if strings.HasPrefix(k, "$calls.") {
+				st.ghost["$callsAtMeta."+strings.TrimPrefix(k, "$calls.")] = v
+				ghostTypes["$callsAtMeta."+strings.TrimPrefix(k, "$calls.")] = types.Typ[types.Int]
+			}
+		}
 	}
 	e.storeElem(st, sl, sl.Len, elem, v)
 	// assumption (listed): traces are shorter than 2^63 events
@@ -90,7 +96,16 @@ func writeKeys(f *ssa.Function, seen map[*ssa.Function]bool, out map[string]bool
 		return
 	}
 	seen[f] = true
-	for _, b := range f.Blocks {
+	instrWriteKeys(f.Blocks, nil, seen, out)
+}
+
+// instrWriteKeys collects the write keys of a set of blocks (all blocks of a function, or a loop body).
+// Special keys: "$frontier" (allocates), "$OUT" / "$OUTM" (may call produce / metaSend), "$all" (unknown effects).
+func instrWriteKeys(blocks []*ssa.BasicBlock, only map[*ssa.BasicBlock]bool, seen map[*ssa.Function]bool, out map[string]bool) {
+	for _, b := range blocks {
+		if only != nil && !only[b] {
+			continue
+		}
 		for _, ins := range b.Instrs {
 			switch x := ins.(type) {
 			case *ssa.Store:
@@ -102,10 +117,35 @@ func writeKeys(f *ssa.Function, seen map[*ssa.Function]bool, out map[string]bool
 				if x.Heap {
 					out["$frontier"] = true
 				}
+			case *ssa.MakeSlice, *ssa.MakeInterface, *ssa.MakeClosure:
+				out["$frontier"] = true
+			case *ssa.MapUpdate, *ssa.Send:
+				out["$all"] = true
+				out[""] = true // every heap key has this prefix
 			case *ssa.Call:
-				if g, ok := x.Call.Value.(*ssa.Function); ok {
+				if x.Call.IsInvoke() {
+					continue // interface callees are assumed to modify only state of their own (listed assumption)
+				}
+				switch g := x.Call.Value.(type) {
+				case *ssa.Builtin:
+					switch g.Name() {
+					case "append":
+						out["$frontier"] = true
+						if sl, ok := x.Type().Underlying().(*types.Slice); ok {
+							out["A|"+typeKey(sl.Elem())+"|"] = true
+						}
+					case "copy":
+						if sl, ok := x.Call.Args[0].Type().Underlying().(*types.Slice); ok {
+							out["A|"+typeKey(sl.Elem())+"|"] = true
+						}
+					}
+				case *ssa.Function:
 					if isHashmapMethod(g, "Put") || isHashmapMethod(g, "Remove") {
 						out["C|hashmap|"] = true
+					}
+					if strings.HasPrefix(g.String(), "github.com/zyedidia/generic/hashmap.New[") {
+						out["C|hashmap|"] = true
+						out["$frontier"] = true
 					}
 					if m, isBt := btreeMethod(g); isBt {
 						if m == "ReplaceOrInsert" || strings.HasPrefix(m, "Delete") {
@@ -115,14 +155,33 @@ func writeKeys(f *ssa.Function, seen map[*ssa.Function]bool, out map[string]bool
 							out["C|btree|"] = true
 							out["$frontier"] = true
 						}
+						if m == "Ascend" {
+							if cf, _ := traceClosure(x.Call.Args[1]); cf != nil {
+								writeKeys(cf, seen, out)
+							}
+						}
+						continue
+					}
+					if strings.HasPrefix(g.String(), "(*github.com/zyedidia/generic/hashmap.Map[") {
 						continue
 					}
 					if _, ext := externs[g.String()]; !ext {
+						if g.Pkg != nil && !strings.HasPrefix(g.Pkg.Pkg.Path(), modPath) && g.Parent() == nil {
+							continue // library function without a model: abstracted at the call (result havoc)
+						}
 						writeKeys(g, seen, out)
 					}
-				}
-				if mc, ok := x.Call.Value.(*ssa.MakeClosure); ok {
-					writeKeys(mc.Fn.(*ssa.Function), seen, out)
+				case *ssa.MakeClosure:
+					writeKeys(g.Fn.(*ssa.Function), seen, out)
+				default:
+					t := x.Call.Value.Type()
+					if namedIs(t, "octosql/execution", "MetaSendFn") {
+						out["$OUTM"] = true
+					} else if namedIs(t, "octosql/execution", "ProduceFn") {
+						out["$OUT"] = true
+					} else if sig, ok := t.Underlying().(*types.Signature); ok && sig.Params().Len() == 1 && namedIs(sig.Params().At(0).Type(), "octosql/execution", "Record") {
+						out["$OUT"] = true
+					}
 				}
 			}
 		}
@@ -199,7 +258,7 @@ func (e *Exec) streamRun(fr *Frame, st *BState, x *ssa.Call) SV {
 	for k, h := range st.heap {
 		for pre := range keys {
 			if strings.HasPrefix(k, pre) {
-				st.heap[k] = e.fresh("stream."+k, h.Sort)
+				st.heap[k] = e.havocHeapKey(k, h, "stream.")
 				havocd = append(havocd, k)
 				break
 			}
@@ -232,6 +291,11 @@ func (e *Exec) streamRun(fr *Frame, st *BState, x *ssa.Call) SV {
 		n := sel(st.heap[netKey(g)], bv, SInt)
 		ln := st.ghost[g].(*SliceV).Len
 		e.assume(mk(SBool, "forall", mk("binder", "(("+bv.Op+" Int))"), and(le(n, ln), le(app(SInt, "-", ln), n))))
+	}
+	for k := range st.ghost {
+		if strings.HasPrefix(k, "$calls.") || strings.HasPrefix(k, "$callsAtMeta.") || k == "$outAtMeta" {
+			st.ghost[k] = intSV(e.fresh("stream."+k, SInt))
+		}
 	}
 	if keys["$frontier"] {
 		old := e.frontier(st)
